@@ -58,10 +58,10 @@ Proof. exact MStore.mstep_isolated. Qed.
 Print Assumptions c04_step_isolated.
 
 (* ---------------------------------------------------------------------------------------------- *)
-(* REGENERATED FROM THE SOURCE ON EVERY RUN (tools/gen -> Generated.g_code; Decisions.v): the decisions the model
+(* REGENERATED FROM THE SOURCE ON EVERY RUN (tools/gen -> Generated.g_code; DecBase.v, Dec*.v): the decisions the model
    takes at these points are the evaluations of the conditions the Go source has there, for all values of their
    variables. *)
-From GK Require Import GExpr Generated Decisions.
+From GK Require Import GExpr Generated DecBase DecSnapshot.
 From Coq Require Import String.
 
 (* mutations and Flush are refused on a read-only store (MStore.snapshot_refuses) *)
@@ -72,7 +72,7 @@ Theorem c04_readonly_refuses_is_source :
   nth_error (conds 400 (body "Store.Flush")) 1 = Some (GBin "==" (GVar "s.file") GNil) /\
   (forall f, In f ["Collection.SetItem"; "Collection.Delete"; "Store.Flush"] ->
      match body f with SIf [] _ (SReturn _ :: _) [] :: _ => True | _ => False end).
-Proof. exact Decisions.readonly_refuses. Qed.
+Proof. exact DecSnapshot.readonly_refuses. Qed.
 Print Assumptions c04_readonly_refuses_is_source.
 
 (* ---------------------------------------------------------------------------------------------- *)
@@ -133,5 +133,5 @@ Theorem c04_snapshot_function_is_source :
         SAssign [GCall "[]" [GVar "coll"; GVar "name"]] "="
           [GUn "&" (GOther "Collection{  store:  res,  compare: collOrig.compare,  rootLock: collOrig.rootLock,  root:  collOrig.rootAddRef(), }")]];
      SReturn [GVar "res"]].
-Proof. exact Decisions.snapshot_function. Qed.
+Proof. exact DecSnapshot.snapshot_function. Qed.
 Print Assumptions c04_snapshot_function_is_source.
